@@ -31,7 +31,7 @@ func init() {
 			return 20000
 		},
 		Run:      runC19,
-		Required: []string{"prepared_sends_decoded", "twin_comparisons", "variants_used", "concurrent_runs_with_writecontrol_pingers"},
+		Required: []string{"prepared_sends_decoded", "twin_comparisons", "variants_used", "concurrent_runs_with_writecontrol_pingers", "level_sweeps"},
 		Assumptions: []string{
 			"the twin connection is a second Conn with identical role and settings written with WriteMessage; frame boundaries are not compared, only decoded type, payload and compressed flag",
 		},
@@ -117,6 +117,17 @@ func runC19(ctx *core.Ctx, out *core.Out) {
 			op.Kind = 3
 		}
 		ops = append(ops, op)
+	}
+	if ctx.Idx%10 == 7 && typ < 8 {
+		// a sweep: every connection sends at every compression level (a dozen or more framing
+		// variants of the one message), then the first connection sends again
+		for ci := range conns {
+			for l := -2; l <= 9; l++ {
+				ops = append(ops, c19Op{Conn: ci, Kind: 2, Level: l}, c19Op{Conn: ci, Kind: 0})
+			}
+		}
+		ops = append(ops, c19Op{Conn: 0, Kind: 0}, c19Op{Conn: nconn - 1, Kind: 0})
+		out.Count("level_sweeps", 1)
 	}
 	concurrent := ctx.Idx%3 == 2
 	desc := map[string]interface{}{"type": typ, "size": size, "conns": cfgs, "ops": ops, "concurrent": concurrent}
